@@ -73,7 +73,8 @@ def c08(run):
 
 def c09(run):
     return engine_prop(run, ["MC_parents.cfg"],
-        [dict(profile="parents", n=n(run, 60, 800))],
+        [dict(profile="parents", n=n(run, 60, 800)),
+         dict(profile="system", n=n(run, 36, 400), extra=["-via", "system", "-check", "off"], label="system")],
         "seeded histories spread over locations A,B,C with changing parent lists (self loops, indirect loops, diamonds), "
         "inherited searches, ListRules, SearchRules and events; every result and every location's storage ids are checked "
         "against Engine (isolation: an operation on one location changes only that location)")
@@ -85,6 +86,14 @@ def c10(run):
          dict(profile="lifecycle", n=n(run, 40, 500))],
         "seeded histories of add/overwrite/remove/disable/enable/reload/location-disable with events (one location and "
         "parent/child), indexed and linear; TLC checks which rules fire for every event and the class of every refusal")
+
+def c17(run):
+    return engine_prop(run, ["MC_parents.cfg"],
+        [dict(profile="system", n=n(run, 72, 900), extra=["-via", "system"])],
+        "the same seeded histories over three locations (facts, rules, parents, events, clear, create) through sys.System under "
+        "location-cache TTL never / 1ms / forever x existence checking on / off x indexed / linear (rotated over the traces); every "
+        "configuration has to refine the one cache-less Engine specification line by line (results and storage ids), which is what "
+        "transparency means; with checking on, requests to a never-created location must answer not-found and store nothing")
 
 def c19(run):
     return engine_prop(run, ["MC_guards.cfg"],
@@ -158,7 +167,7 @@ def c03(run):
                            "indexed and linear state, through Location.Query; TLC compares the returned bindings as a BAG with Query!Eval; "
                            "states/transitions: QueryMC (algebraic laws of Eval on all trees up to depth 1/2 x all fact subsets)")
 
-CHECKS = {"C01": c01, "C03": c03, "C04": c04, "C05": c05, "C02": c02, "C07": c07, "C08": c08, "C09": c09, "C10": c10, "C19": c19, "C20": c20}
+CHECKS = {"C17": c17, "C01": c01, "C03": c03, "C04": c04, "C05": c05, "C02": c02, "C07": c07, "C08": c08, "C09": c09, "C10": c10, "C19": c19, "C20": c20}
 
 def replay(run, path):
     rejected, out = run.validate("EngineTrace.tla", "EngineTrace.cfg", path, "replay")
